@@ -33,8 +33,9 @@ Qed.
 
 Theorem untouched_antispoof : forall mp f v f', run (antispoof_ingress mp) f = Done v f' -> f' = f.
 Proof.
-  intros mp f v f' H. eapply pu_run in H; [destruct H as [H|H]; [exact H|destruct H]|].
-  unfold antispoof_ingress. apply pu_dl. apply pu_antispoof.
+  intros mp f v f' H.
+  assert (P : pu f False (antispoof_ingress mp)) by (unfold antispoof_ingress; apply pu_dl; apply pu_antispoof).
+  destruct (pu_run _ _ _ _ _ P H) as [E|E]; [exact E|destruct E].
 Qed.
 
 Lemma vd_cmp_bytes S bl off : vd S (cmp_bytes bl off).
@@ -53,6 +54,7 @@ Qed.
 
 Theorem verdict_antispoof : forall mp f v f', run (antispoof_ingress mp) f = Done v f' -> v = TC_ACT_OK \/ v = TC_ACT_SHOT.
 Proof.
-  intros mp f v f' H. eapply vdr_run in H; [|unfold antispoof_ingress; apply vdr_dl; intro; apply vdr_antispoof].
-  unfold tc_ok_or_shot in H. apply orb_true_iff in H. rewrite !N.eqb_eq in H. exact H.
+  intros mp f v f' H.
+  assert (P : vdr tc_ok_or_shot (antispoof_ingress mp)) by (unfold antispoof_ingress; apply vdr_dl; intro; apply vdr_antispoof).
+  apply (vdr_run _ _ _ _ _ P) in H. unfold tc_ok_or_shot in H. apply orb_true_iff in H. rewrite !N.eqb_eq in H. exact H.
 Qed.
